@@ -197,7 +197,7 @@ def gen_pars(info, rng, dim):
     pars = c01.base_pars(info, rng)
     pars = {k: v for k, v in pars.items()}
     pars["scale"] = rng.choice([1.0, 0.37]); pars["background"] = rng.choice([0.0, 0.01])
-    pdn = list(info.parameters.pd_2d if dim == "2d" else info.parameters.pd_1d)
+    pdn = c01.dispersible(info.parameters, dim)
     byname = {p.name: p for p in info.parameters.call_parameters}
     if pdn and rng.random() < 0.6:
         for name in rng.sample(pdn, min(len(pdn), rng.choice([1, 2]))):
@@ -265,7 +265,7 @@ def one_field_edit(req, rng, info):
     r2 = copy.deepcopy(req)
     pars = r2["pars"]
     dim = "2d" if len(req["q"]) == 2 else "1d"
-    pdn = list(info.parameters.pd_2d if dim == "2d" else info.parameters.pd_1d)
+    pdn = c01.dispersible(info.parameters, dim)
     byname = {p.name: p for p in info.parameters.call_parameters}
     kinds = ["scale", "background", "value"]
     if req["op"] == "call_kernel":
@@ -369,7 +369,7 @@ def gen_history(rng, infos, length):
                     pars[p_.name + "_pd"] = rng.uniform(3, 20); pars[p_.name + "_pd_n"] = rng.choice([3, 6, 10])
             pars = {k: v for k, v in pars.items() if not k.endswith("_pd_type")}
             req = dict(op=rng.choice(["sasview", "sasview_clone"]), model=model, q=q, cutoff=cutoff, settings=sasview_settings(pars, info))
-            pd1 = [n for n in info.parameters.pd_1d if n in pars and pars[n] > 0]
+            pd1 = [n for n in c01.dispersible(info.parameters, "1d") if n in pars and pars[n] > 0]
             if pd1 and rng.random() < 0.4:
                 # an empirical (array) distribution supplied by the caller: values around the centre, weights that
                 # are not normalised
